@@ -20,7 +20,7 @@ META = {
                  "reference, read-call budget as termination detector",
     "text": "file sizes {0,1,255,256,1000,65535,65536,65537,131072,200000,409600} x offsets {0,1,256,"
             "65536,size-1,size,size+1} x lengths {0,1,256,65536,65537,size,size+100000} x block sizes "
-            "{0,255,256,1000,65536,65537,100000} x algorithms {md5, sha1, unknown-name-first list}: "
+            "{0,255,256,1000,65536,65537,100000} x algorithm lists {md5, sha1, unknown+md5, sha1+md5}: "
             "full product in thorough (plus offsets {255,65535,65537,size/2}, lengths {255,1000,131072,"
             "size-1,size+1}, block sizes {257,4096,65535,131072}), the 1/6 sub-lattice (index sum = 0 mod 6, every value of every "
             "parameter kept) in quick.  Oracle: digest == concatenation of hash(content[a:b]) over "
@@ -34,7 +34,7 @@ META = {
 
 SIZES = [0, 1, 255, 256, 1000, 65535, 65536, 65537, 131072, 200000, 409600]
 BLOCKS = [0, 255, 256, 1000, 65536, 65537, 100000]
-ALGS = ["md5", "sha1", "nope,md5"]
+ALGS = ["md5", "sha1", "nope,md5", "sha1,md5"]
 CHUNK = 65536
 
 
@@ -74,9 +74,14 @@ def all_cases(tier):
     return out
 
 
+def first_supported(alg):
+    # the client names a list; the server uses the first algorithm of the list it supports
+    return next(a for a in alg.split(",") if a in ("md5", "sha1"))
+
+
 def expected(data, off, ln, bs, alg):
     """-> (digest bytes, clipped range length, number of blocks)"""
-    h = getattr(hashlib, alg.split(",")[-1])
+    h = getattr(hashlib, first_supported(alg))
     size = len(data)
     end = size if ln == 0 else min(off + ln, size)
     if off >= end:
@@ -138,11 +143,12 @@ def judge(acc, size, data, fobj, lb, case):
         # block size 1..255 accepted by the server: the statement says nothing; only termination
         return
     if got != want:
-        nb = len(got) // (16 if alg.endswith("md5") else 20)
+        dl = hashlib.new(first_supported(alg)).digest_size
+        nb = len(got) // dl
         bad = next((i for i in range(min(len(got), len(want))) if got[i] != want[i]), min(len(got), len(want)))
         acc.violation("wrong-digest:%s" % cls,
                       {"case": rec, "clipped_range": rng, "blocks_expected": nblocks, "blocks_returned": nb,
-                       "first_wrong_block": bad // (16 if alg.endswith("md5") else 20),
+                       "first_wrong_block": bad // dl,
                        "got": got[:40], "want": want[:40]}, replay)
         return
     if statement_applies and (off * 7 + ln + bs) % 97 == 0:
